@@ -25,6 +25,15 @@ def main():
     import python_minifier
     import python_minifier.__main__ as pm_main  # noqa: F401  (imported, not run)
 
+    # every submodule is imported now: a lazy import inside a call (expression_printer imports f_string on
+    # first use) would otherwise take the import lock under the scheduler and make "first call" special
+    import pkgutil
+    for m in pkgutil.walk_packages(python_minifier.__path__, 'python_minifier.'):
+        try:
+            __import__(m.name)
+        except Exception:
+            pass
+
     pm_file = os.path.realpath(python_minifier.__file__)
     if not pm_file.startswith(src + os.sep):
         sys.stderr.write('zygote: python_minifier loaded from %s, expected under %s\n' % (pm_file, src))
